@@ -132,6 +132,8 @@ def run(ctx):
     immutable_rebuild(ctx, ctx.program)
     from rules.common import check_sentinel_default as _csd
     _csd(ctx, ctx.program, ctx.program.func('iterutils.get_path'))
+    from rules.common import check_get_none_presence as _cgn
+    _cgn(ctx, ctx.program.func('iterutils.get_path'))          # None is a legal value of a path step
     prog = ctx.program
     segment_lookup(ctx, prog)
     for fname, roles in INPUT_ROLES.items():
@@ -194,7 +196,9 @@ def run(ctx):
     # remap registry discipline
     rm = prog.func(M + '.remap')
 
-    class RM(Quiet):
+    from rules.common import PrivInl as _PInl8
+
+    class RM(_PInl8):
         max_paths = 60000
 
         def unroll(self, stmt):
@@ -272,7 +276,8 @@ def run(ctx):
         ops = p.ops
         for o in ops:
             if o.kind == 'call' and isinstance(o.val.func, ast.Attribute) and o.val.func.attr == 'append' and o.val.args \
-                    and txt(o.node.func.value).replace(' ', '').endswith('[-1][1]'):
+                    and (txt(o.node.func.value).replace(' ', '').endswith('[-1][1]') or
+                         txt(w.expand(o.val.func.value)).replace(' ', '').endswith('[-1][1]')):
                 n_app += 1
                 last = max([x.seq for x in ops if x.kind == 'loop_iter' and x.seq < o.seq] or [-1])
                 seg = [x for x in ops if last < x.seq < o.seq]
